@@ -98,7 +98,8 @@ def collapseGo [DecidableEq C] (K : ConstOps C) : Nat → Option (Expr C) → Af
     collapseGo K fuel (some out') rest'
 
 def collapseList [DecidableEq C] (K : ConstOps C) (le : Expr C → Expr C → Bool) (l : AffMap C) : Expr C :=
-  (collapseGo K (l.length + 1) none (sortByCoef K le l)).getD (const K.zero)
+  let sorted := sortByCoef K le l
+  (collapseGo K (sorted.length + 1) none sorted).getD (const K.zero)
 
 /-- `UpAffine`: positive part minus negative part (both are always valid trees) -/
 def collapse [DecidableEq C] (K : ConstOps C) (le : Expr C → Expr C → Bool) (m : AffMap C) : Expr C :=
@@ -133,9 +134,11 @@ def isAffineRoot : Expr C → Bool
 
 /-- the commutative operator a node starts / continues a chain of, if any -/
 def commOp : Expr C → Option Op
-  | bin Op.mul a b => if (constOf a).isSome || (constOf b).isSome then none else some Op.mul
-  | bin Op.min _ _ => some Op.min
-  | bin Op.max _ _ => some Op.max
+  | bin op a b =>
+    if op = Op.mul then (if (constOf a).isSome || (constOf b).isSome then none else some Op.mul)
+    else if op = Op.min then some Op.min
+    else if op = Op.max then some Op.max
+    else none
   | _ => none
 
 mutual
@@ -150,16 +153,18 @@ def opt [DecidableEq C] (K : ConstOps C) (le : Expr C → Expr C → Bool) : Nat
 def optNonAffine [DecidableEq C] (K : ConstOps C) (le : Expr C → Expr C → Bool) : Nat → Expr C → Expr C
   | 0, t => t
   | f + 1, t =>
-    match commOp t, t with
-    | some op, bin _ a b => buildComm K le op (commItems K le f op a (commItems K le f op b []))
-    | _, un op a =>
+    match t with
+    | un op a =>
       let a' := opt K le f a
       if a' = a then un op a else mkUnary K op a'
-    | _, bin op a b =>
-      let a' := opt K le f a
-      let b' := opt K le f b
-      if a' = a ∧ b' = b then bin op a b else mkBinary K op a' b'
-    | _, t => t
+    | bin op a b =>
+      if commOp (bin op a b) = some op then
+        buildComm K le op (commItems K le f op a (commItems K le f op b []))
+      else
+        let a' := opt K le f a
+        let b' := opt K le f b
+        if a' = a ∧ b' = b then bin op a b else mkBinary K op a' b'
+    | t => t
 
 /-- accumulate `scale · t` into the affine map -/
 def affineTerms [DecidableEq C] (K : ConstOps C) (le : Expr C → Expr C → Bool) :
@@ -167,18 +172,22 @@ def affineTerms [DecidableEq C] (K : ConstOps C) (le : Expr C → Expr C → Boo
   | 0, t, s, acc => addTerm K t s acc
   | f + 1, t, s, acc =>
     match t with
-    | un Op.neg a => affineTerms K le f a (K.foldUn Op.neg s) acc
-    | bin Op.add a b => affineTerms K le f a s (affineTerms K le f b s acc)
-    | bin Op.sub a b => affineTerms K le f a s (affineTerms K le f b (K.foldUn Op.neg s) acc)
-    | bin Op.mul a b =>
-      match constOf a, constOf b with
-      | some c, _ => affineTerms K le f b (K.foldBin Op.mul c s) acc
-      | none, some c => affineTerms K le f a (K.foldBin Op.mul c s) acc
-      | none, none => addTerm K (optNonAffine K le f t) s acc
-    | bin Op.div a b =>
-      match constOf b with
-      | some c => affineTerms K le f a (K.foldBin Op.div s c) acc
-      | none => addTerm K (optNonAffine K le f t) s acc
+    | un op a =>
+      if op = Op.neg then affineTerms K le f a (K.foldUn Op.neg s) acc
+      else addTerm K (optNonAffine K le f (un op a)) s acc
+    | bin op a b =>
+      if op = Op.add then affineTerms K le f a s (affineTerms K le f b s acc)
+      else if op = Op.sub then affineTerms K le f a s (affineTerms K le f b (K.foldUn Op.neg s) acc)
+      else if op = Op.mul then
+        match constOf a, constOf b with
+        | some c, _ => affineTerms K le f b (K.foldBin Op.mul c s) acc
+        | none, some c => affineTerms K le f a (K.foldBin Op.mul c s) acc
+        | none, none => addTerm K (optNonAffine K le f (bin op a b)) s acc
+      else if op = Op.div then
+        match constOf b with
+        | some c => affineTerms K le f a (K.foldBin Op.div s c) acc
+        | none => addTerm K (optNonAffine K le f (bin op a b)) s acc
+      else addTerm K (optNonAffine K le f (bin op a b)) s acc
     | t => addTerm K (optNonAffine K le f t) s acc
 
 /-- operands of a chain of the commutative operator `op` (appended to `acc`) -/
@@ -188,8 +197,9 @@ def commItems [DecidableEq C] (K : ConstOps C) (le : Expr C → Expr C → Bool)
   | f + 1, op, t, acc =>
     match t with
     | bin op' a b =>
-      if commOp t = some op ∧ op' = op then commItems K le f op a (commItems K le f op b acc)
-      else acc ++ [opt K le f t]
+      if commOp (bin op' a b) = some op ∧ op' = op then
+        commItems K le f op a (commItems K le f op b acc)
+      else acc ++ [opt K le f (bin op' a b)]
     | t => acc ++ [opt K le f t]
 end
 
